@@ -177,18 +177,6 @@ func H_C20_summary() {
 // counter values: absent, singular, plural, two digits
 var counterVals = []int{0, 1, 2, 11}
 
-func itoa(n int) string {
-	if n == 0 {
-		return "0"
-	}
-	s := ""
-	for n > 0 {
-		s = string(rune('0'+n%10)) + s
-		n /= 10
-	}
-	return s
-}
-
 // H_C20_skips: the summary's skip count is the number of snaps.Skip* calls made
 // in the process, whatever the names (repeated, parent then child, ...).
 func H_C20_skips() {
@@ -200,14 +188,21 @@ func H_C20_skips() {
 	k := vxrt.Len("skip-calls", 1, vxrt.Param("skips", 3))
 	for s := 0; s < k; s++ {
 		t := newT(names[vxrt.Choice("who", len(names))])
-		switch vxrt.Choice("wrapper", 3) {
-		case 0:
-			Skip(t, "x")
-		case 1:
-			Skipf(t, "%s", "x")
-		default:
-			SkipNow(t)
-		}
+		w := vxrt.Choice("wrapper", 3)
+		after := false
+		// the body runs on its own goroutine and the skip ends it, as with a real testing.T
+		runTest(t, func() {
+			switch w {
+			case 0:
+				Skip(t, "x")
+			case 1:
+				Skipf(t, "%s", "x")
+			default:
+				SkipNow(t)
+			}
+			after = true
+		})
+		vxrt.Assert(!after, "setup:skip-ends-the-test-body")
 		vxrt.Assert(t.skips == 1 && len(t.logs) == 1, "C20:skip-forwards-and-logs")
 	}
 	Clean(nil)
@@ -281,9 +276,20 @@ func H_C20_clean_summary() {
 	c := WithConfig(Dir(dir), Filename("f"))
 	withFail := vxrt.Bool("a-failing-call")
 	withAdd := vxrt.Bool("a-new-snapshot")
+	// optionally both files in use hold an obsolete entry, with the same id
+	withObsolete := vxrt.Bool("same-obsolete-id-in-two-files")
+	cg := WithConfig(Dir(dir), Filename("g"))
+	if withObsolete {
+		writeFile(dir+"/f.snap", frame("TestM - 1", "one")+frame("TestM - 2", "two")+frame("TestOld - 1", "stale in f"))
+		writeFile(dir+"/g.snap", frame("TestM - 1", "gee")+frame("TestOld - 1", "stale in g"))
+	}
 	nPassed, nFailed, nAdded := 0, 0, 0
 	for r := 0; r < count; r++ {
 		t := newT("TestM")
+		if withObsolete {
+			cg.MatchSnapshot(t, "gee")
+			nPassed++
+		}
 		c.MatchSnapshot(t, "one")
 		nPassed++
 		if withFail {
@@ -306,6 +312,9 @@ func H_C20_clean_summary() {
 	}
 	Clean(nil)
 	out := vxrt.Stdout()
+	if withObsolete {
+		vxrt.Assert(strings.Contains(out, arrowSymbol+"2 snapshot tests obsolete") && strings.Count(out, bulletSymbol+"TestOld - 1\n") == 2, "C20:summary-lists-every-obsolete-entry")
+	}
 	for _, e := range []struct {
 		verb string
 		want int
